@@ -1,4 +1,5 @@
 import QuillModel.Backend.ConsProofsStep
+import QuillModel.Backend.ConsProofsExact
 /-!
 # C03 — every accepted statement reaches each sink of its logger once, in thread order
 
@@ -135,6 +136,60 @@ theorem C03_popLog_merge (s0 : BSt) (h0 : Inv s0) (ops : List Op) (p : Stmt → 
     (runOps s0 ops).popLog.countP p = cntP (runOps s0 ops) p :=
   (h0.run ops).p p
 
+/-! ### exactly once over the whole history
+
+Stated relative to the history itself, no record of the dispatch-time decision is needed: an accepted ordinary statement
+has no write before its pop; its pop appends exactly one write per occurrence of each sink that accepts it at that
+moment; afterwards the number of its writes at every sink never changes again. -/
+
+/-- **Nothing is written before the pop.** In every reachable state, an ordinary statement that is still in a transit
+    buffer or in a queue has no ordinary `write` event at any sink in the whole history. -/
+theorem C03_nothing_written_before_pop (s0 : BSt) (h0 : Inv s0) (ops : List Op) (i : Nat) (st : Stmt)
+    (hm : st ∈ ((runOps s0 ops).th i).buf ++ ((runOps s0 ops).th i).qStmts) (hord : isOrd st = true) (sid : Nat) :
+    wcount (runOps s0 ops).log sid st.id = 0 :=
+  (h0.run ops).unpopped_unwritten hm hord sid
+
+/-- **The pop writes it exactly once per accepting sink.** In any state satisfying the invariants (every reachable
+    state, and every state inside a poll), popping the front event `st` (ordinary) of context `i` leaves, in the WHOLE
+    history, at every sink `sid`: exactly as many ordinary writes of `st.id` as `sid` occurs among the sinks of its
+    logger that accept it at this moment (`acc s st`: sink level and filters) when no `write_log` fault hits — i.e.
+    exactly one per accepting sink listed once, none at a rejecting or foreign sink; and with a fault at sink `f`,
+    exactly the accepting sinks before `f`. -/
+theorem C03_pop_writes_exactly (s : BSt) (h : Inv s) (i : Nat) (st : Stmt) (rest : List Stmt)
+    (hb : (s.th i).buf = st :: rest) (hord : isOrd st = true) (sid : Nat) :
+    ((dispatch s st).2 = false ∧
+      wcount (popStep s i st rest).log sid st.id = ((s.lgOf st.lg).sinks.filter (acc s st)).count sid) ∨
+    (∃ pre f post, (s.lgOf st.lg).sinks = pre ++ f :: post ∧ (dispatch s st).2 = true ∧ acc s st f = true ∧
+      wcount (popStep s i st rest).log sid st.id = (pre.filter (acc s st)).count sid) :=
+  popStep_wcount h i st rest hb hord sid
+
+/-- **After the pop nothing is ever added.** From any state satisfying the invariants in which an ordinary statement
+    `st` is in a `popped` history, every further schedule leaves the number of ordinary writes of `st.id` at every sink
+    unchanged — no retry, no re-read, no replay writes it again. -/
+theorem C03_writes_frozen_after_pop (s : BSt) (h : Inv s) (i : Nat) (st : Stmt) (hm : st ∈ (s.th i).popped)
+    (hord : isOrd st = true) (ops : List Op) (sid : Nat) :
+    wcount (runOps s ops).log sid st.id = wcount s.log sid st.id :=
+  (Frozen.run ⟨h, h.popped_counted hm hord, rfl⟩ ops).cnt
+
+/-- **Exactly once, end to end.** When the backend's `_process_lowest_timestamp_transit_event` (with any frontend
+    operations injected at its hook sites) processes the ordinary statement `st` and no `write_log` fault hits it, then
+    at the end of that call and after EVERY further schedule the whole history contains, at every sink `sid`, exactly
+    as many ordinary writes of `st.id` as `sid` occurs among the sinks of `st`'s logger that accepted it at dispatch
+    time: exactly one for an accepting sink listed once, none otherwise. -/
+theorem C03_exactly_once (s : BSt) (h : Inv s) (table : List (Nat × Nat × List FOp)) (i : Nat) (st : Stmt) (rest : List Stmt)
+    (hl : lowest s = some i) (hb : (s.th i).buf = st :: rest) (hord : isOrd st = true)
+    (hnf : (dispatch s st).2 = false) (ops : List Op) (sid : Nat) :
+    wcount (runOps (processLowest (runInj table) s).1 ops).log sid st.id =
+      ((s.lgOf st.lg).sinks.filter (acc s st)).count sid := by
+  have hF := Frozen.of_pop h i st rest hb hord sid
+  have hc := Frozen.closed sid st.id (wcount (popStep s i st rest).log sid st.id)
+  have hT := processLowest_tail_closed hc (runInj table) (fun s' site hs => runInj_closed hc table s' site hs)
+    s i st rest hl hb hF
+  rw [(hT.run ops).cnt]
+  rcases popStep_wcount h i st rest hb hord sid with ⟨_, e⟩ | ⟨_, _, _, _, e, _⟩
+  · exact e
+  · rw [hnf] at e; cases e
+
 /-- every freshly started system satisfies the invariant the theorems assume -/
 theorem C03_fresh_inv (s0 : BSt) (h : Fresh s0) : Inv s0 := h.inv
 
@@ -170,5 +225,11 @@ example : ((runOps c03Init c03Sched).th 0).accepted.map (·.id) = [0, 2] ∧
     wcount (runOps c03Init c03Sched).log 1 0 = 1 ∧ wcount (runOps c03Init c03Sched).log 2 0 = 1 ∧
     wcount (runOps c03Init c03Sched).log 1 2 = 1 ∧ wcount (runOps c03Init c03Sched).log 2 2 = 0 ∧
     wcount (runOps c03Init c03Sched).log 1 1 = 1 ∧ wcount (runOps c03Init c03Sched).log 2 1 = 1 := by decide
+
+/-- non-vacuity of the exactly-once theorems: in the final state of the schedule statement 1 (thread 1) is popped,
+    ordinary, and was written once to each of the two sinks; a further poll changes nothing -/
+example : (((runOps c03Init c03Sched).th 1).popped.filter isOrd).map (·.id) = [1] ∧
+    wcount (runOps c03Init (c03Sched ++ [.poll [], .poll []])).log 1 1 = 1 ∧
+    wcount (runOps c03Init (c03Sched ++ [.poll [], .poll []])).log 2 1 = 1 := by decide
 
 end Backend
